@@ -108,7 +108,18 @@ impl JoinHandle {
     #[verifier::external_body]
     pub fn is_finished(&self) -> (r: bool) ensures r == exited(*self) { unimplemented!() }
 }
-pub mod thread { pub type Result<T> = core::result::Result<T, super::ThreadPanic>; }
+/// std::thread::{current, Thread, ThreadId}: which thread this is — nothing links it to whether a thread has ended
+#[verifier::external_body]
+pub struct Thread { _p: () }
+#[derive(PartialEq, Eq, Structural, Clone, Copy)]
+pub struct ThreadId(pub u64);
+impl Thread { #[verifier::external_body] pub fn id(&self) -> (r: ThreadId) { unimplemented!() } }
+impl JoinHandle { #[verifier::external_body] pub fn thread(&self) -> (r: &Thread) { unimplemented!() } }
+pub mod thread {
+    pub type Result<T> = core::result::Result<T, super::ThreadPanic>;
+    #[verifier::external_body]
+    pub fn current() -> (r: super::Thread) { unimplemented!() }
+}
 impl<T> Clone for mpsc::UnboundedSender<T> {
     #[verifier::external_body]
     fn clone(&self) -> (r: Self) ensures r.alive() == self.alive(), r.sent_in_call() == self.sent_in_call() { unimplemented!() }
